@@ -7,7 +7,7 @@ import os
 from . import idioms as I
 from . import prov as P
 from . import regexlang
-from .facts import VERIF, Broken
+from .facts import VERIF, Broken, AnchorMissing
 
 ALLOW_FILE = os.path.join(VERIF, "rules", "allow_panics.json")
 
@@ -838,5 +838,5 @@ def audit(ctx, F, cg, entries, prop, configs=("lib",), extra_discharge=(), floor
             "unaudited_keys": len(unall),
             "unused_allowance": sorted(f"{k[0]}|{k[1]}|{k[2]}={b[0]}" for k, b in budget.items() if b[0] > 0)}
     if total < floor_sites:
-        raise Broken(f"{rule}: only {total} potential panic sites enumerated, floor is {floor_sites}")
+        raise AnchorMissing(f"{rule}: only {total} potential panic sites enumerated, floor is {floor_sites}")
     return total
